@@ -24,6 +24,9 @@ def run(ctx):
     facts = ctx.bin
     g = ctx.grammar
     P = "C09-a"
+    from . import gram as _gram
+    _gram.literal_text_premises(ctx, g, "C09-G")
+    _gram.g18_message_not_key(ctx, g, "C09-G")
     tb, tt = c12.token_template(ctx, facts, P)
     if tt is not None:
         c, pieces = tt
